@@ -1302,6 +1302,8 @@ def havoc_value(v, name):
 def has_symbolic(x, depth=0):
     if isinstance(x, (SV, SArr, SObj, SIter, GenObj)) or is_z3(x):
         return True
+    if getattr(x, "_pyvc_ok", False) and not isinstance(x, type):
+        return True       # ghost objects of the engine: code handling them must be interpreted, not run natively
     if depth > 4:
         return False
     if isinstance(x, (list, tuple, set, frozenset)):
